@@ -189,21 +189,21 @@ where
             let key_bytes = key.encode_vec();
             let cache_bytes = cache.encode_vec();
             if cache.is_old(block_number) {
-#[cfg(brc20_prog_verif)]
+                #[cfg(brc20_prog_verif)]
                 crate::verif::failpoint("cached/history.delete");
                 self.cache_db.delete(&key_bytes)?;
             } else {
-#[cfg(brc20_prog_verif)]
+                #[cfg(brc20_prog_verif)]
                 crate::verif::failpoint("cached/history.put");
                 self.cache_db.put(&key_bytes, &cache_bytes)?;
             }
 
             if let Some(value) = cache.latest() {
-#[cfg(brc20_prog_verif)]
+                #[cfg(brc20_prog_verif)]
                 crate::verif::failpoint("cached/latest.put");
                 self.db.put(&key_bytes, &value.encode_vec())?;
             } else {
-#[cfg(brc20_prog_verif)]
+                #[cfg(brc20_prog_verif)]
                 crate::verif::failpoint("cached/latest.delete");
                 self.db.delete(&key_bytes)?;
             }
